@@ -20,7 +20,7 @@ NA = {
 # id -> (level category, technique, level text, level note, design ref)
 CLAIMED = {
     "C01": ("exploration", "deterministic simulation with storage-fault injection: truncation sweep, bit flips, torn splices, lost blocks, invalid sequences, record faults; all nine decoders + re-encode; Miri re-execution of a plan sample in the thorough tier",
-            "Exhaustive short prefixes (all byte strings <= 4 over a 12-byte structural alphabet, alone and before a small file) and first-line variants (special character x 10 first lines x special character); every truncation length of every small file (thorough: also of its UTF-16 transcodings); seeded storage faults (S1-S4, S6) and record faults (L1-L5) on bundled and grammar-generated files, encoding and Mode knobs, a share delivered under chunking/Interrupted, plus workload-only families counted separately: uniform and dictionary noise, hostile slider geometry (NaN/inf curve lengths, huge arcs, limit coordinates), pathological repetition (up to 4e5 copies of a line), foreign magic prefixes. Oracle: no panic, no process death, reader poll budget respected, every decoder returns Ok because the reader reported no failure, the Beatmap re-encodes to valid UTF-8 (two APIs agree; a short-writing interrupting sink receives the same text; a full fixed-size sink makes encode return an error, not hang) and decodes again. The thorough tier re-executes a sample of the same plans under Miri (UB check of the three unsafe blocks) and runs a second build with the tracing feature and a formatting subscriber.",
+            "Exhaustive short prefixes (all byte strings <= 4 over a 12-byte structural alphabet, alone and before a small file) and first-line variants (special character x 10 first lines x special character); every truncation length of every small file (thorough: also of its UTF-16 transcodings); seeded storage faults (S1-S4, S6) and record faults (L1-L5) on bundled and grammar-generated files, encoding and Mode knobs, a share delivered under chunking/Interrupted, plus workload-only families counted separately: uniform and dictionary noise, hostile slider geometry (NaN/inf curve lengths, huge arcs, limit coordinates), pathological repetition (up to 4e5 copies of a line), records en masse (overlapping breaks, timing lines, objects), zigzag sliders with many repeats, foreign magic prefixes. Oracle: no panic, no process death, reader poll budget respected, every decoder returns Ok because the reader reported no failure, the Beatmap re-encodes to valid UTF-8 (two APIs agree; a short-writing interrupting sink receives the same text; a full fixed-size sink makes encode return an error, not hang) and decodes again. The thorough tier re-executes a sample of the same plans under Miri (UB check of the three unsafe blocks) and runs a second build with the tracing feature and a formatting subscriber.",
             "Sampling of the byte-string space by a seeded mutational generator: evidence, not proof. Allocation failure is not injectable (aborts); bounded by ulimit -v. Pure-compute hangs are caught by a wall-clock watchdog with re-confirmation.", "§4 C01"),
     "C05": ("exploration", "deterministic simulation: real driver and line reader over simulated delivery with stub section parsers; recorded delivery history checked against a reference router (exactly-once, in-order, right section)",
             "Every sequence of up to 2 (quick) / 3 (thorough) lines over a 77-kind alphabet in four encodings (exhaustive); seeded sequences (0..40 lines) over the same alphabet plus lines with characters whose UTF-16 units contain 0x0A/0x0D/0x00 bytes, byte damage and > 64 KiB lines, LF/CRLF, with/without final newline, four encodings, random simulated delivery (chunking, first chunk < 3, Interrupted, std BufReader capacities), plus every bundled file in four encodings. The (section, line) delivery history — recorded by stub parsers, or by one of the nine real decoders behind a pass-through probe (so decoder-specific skip hooks are exercised) — must equal the reference router's, and the version too. Entry points: decode over the simulated device, from_str, from_bytes, from_path on a regular file and on a pipe opened by path; for the full decoder also Beatmap's own entry points (value compared with from_bytes). Line kinds include CR-prefixed lines and LF-CR ends; UTF-16 storage cut anywhere or with a dangling byte. Second oracle with the REAL section decoders (nothing in between): the result for the file equals the result for the file reduced to the deliveries of the sections that decoder listens to. Re-entrant handlers: a stub whose callbacks start nested decodes every n-th line; nested results equal the top-level ones.",
@@ -29,7 +29,7 @@ CLAIMED = {
             "Bundled and generated files with 1..4 corrupted records (field deleted / swapped / boundary token / garbage / cut short / deep inside a multi-segment slider path / partial progress: an earlier field changed to another valid value and a later field broken) placed next to records of the same kind, plus noise and header-like lines and foreign section blocks spliced into sections; decoded through Probe<Beatmap|HitObjects|TimingPoints>; for up to 12 rejected lines per run the decode without that line must be bit-identical.",
             "Trusted: Debug fingerprint; the C05 router for mapping deliveries to file lines (sanity-checked per run). UTF-8 files only.", "§4 C06"),
     "C08": ("exploration", "deterministic simulation: seeded chunk/Interrupted schedules over a simulated BufRead device, self-differential against one-shot delivery; swept chunk sizes and BufReader capacities",
-            "Seeded search over delivery schedules (chunk sizes down to 1 byte, first chunk < 3 bytes, boundary-targeted splits, Interrupted bursts, real std BufReader of capacity 1..16 and random over a simulated device, Chain, from_str, from_path on a real temp file, Beatmap's own from_bytes / str::parse / from_path; file names with other or no extensions and a beatmap folder with a neighbouring storyboard and difficulty) plus from_path over a pipe (procfs), over a pipe whose writer pauses, and over a path that previously held other bytes of the same length and mtime, for bundled and generated files in all four encodings and all nine decoders, about a fifth with unusual byte content (doubled BOM, BOM-less UTF-16, storage faults, foreign magic prefix, lines > 64 KiB / > 1 MiB, record faults incl. edge white space of the non-ASCII kind, orphan records before the first header, content that spells the path of an existing file, version-line spellings as first line); an advisory lock held by a second handle during from_path; thorough tier: files of 33 and 65 MiB whose content comes last; every result must equal from_bytes on the same bytes. Plus a deterministic sweep of fixed chunk sizes / capacities. Evidence, not proof: schedules are sampled.",
+            "Seeded search over delivery schedules (chunk sizes down to 1 byte, first chunk < 3 bytes, boundary-targeted splits, Interrupted bursts, real std BufReader of capacity 1..16 and random over a simulated device, Chain, from_str, from_path on a real temp file, Beatmap's own from_bytes / str::parse / from_path; file names with other or no extensions and a beatmap folder with a neighbouring storyboard and difficulty) plus from_path over a pipe (procfs), over a pipe whose writer pauses, and over a path that previously held other bytes of the same length and mtime, for bundled and generated files in all four encodings and all nine decoders, about a fifth with unusual byte content (doubled BOM, BOM-less UTF-16, storage faults, foreign magic prefix, lines > 64 KiB / > 1 MiB, record faults incl. edge white space of the non-ASCII kind, orphan records before the first header, content that spells the path of an existing file, version-line spellings as first line, tiny files, uncompleted byte-order marks in front of header-first files); an advisory lock held by a second handle during from_path; thorough tier: files of 33 and 65 MiB whose content comes last; every result must equal from_bytes on the same bytes. Plus a deterministic sweep of fixed chunk sizes / capacities. Evidence, not proof: schedules are sampled.",
             "Trusted: std BufReader/Cursor/Chain, the Debug rendering used as fingerprint, the SimReader stub. A defect that alters one-shot and scheduled delivery identically is invisible to this oracle.", "§4 C08"),
     "C09": ("fault_enumeration", "deterministic simulation with fault injection: enumerated read/write fault offsets x error kinds through simulated reader/sink, plus seeded combinations",
             "Every byte offset of every small bundled file (dense samples of the four large ones) x the property's five error kinds (plus one of fifteen further kinds, rotating with the offset) x {direct, under std BufReader}, one-shot and sticky, mixed with Interrupted and chunking; every output offset x {hard error, Ok(0)} x {direct, by-value std BufWriter}; flush failure of every kind incl. Interrupted, sticky or on the first flush only (Ok is accepted only if the last flush the sink saw succeeded); short writes and Interrupted-only sinks; every input of <= 2 bytes x every Interrupted subset of the first four device calls; two synthetic full-featured maps in the corpus so every kind of output line meets every fault offset, and one tricky-text map stored as UTF-8+BOM / UTF-16LE / UTF-16BE so every byte of CR/LF-byte code units, surrogate pairs and multi-byte sequences meets a read fault; seven real-OS probes (through a scratch symlink, never the device node itself; incl. a zero-length special file whose reads fail). Oracle: injected failure => Err of that kind whose payload is still the device's error object (directly or along the source chain), transient => unchanged outcome, sink bytes always a prefix of the clean encoding, nothing swallowed (including in Drop).",
@@ -41,13 +41,13 @@ CLAIMED = {
             "Every line sequence up to length 3 (quick) / 5 (thorough) over a 12-line alphabet x 4 modes, plus seeded histories (0..24 lines over the property's alphabet, optional fields omitted, comments) and the bundled maps' timing sections, each under reorder / duplicate / drop perturbations and [General] Mode switches or records of other sections arriving between lines; near-equal times and values (±ulp, ±epsilon), padded flags, meters beyond i32, surplus fields, out-of-range defaults, integer fields at the edge of every 8/16/32/64-bit width (signed, unsigned, padded), Mode values that are not a mode, format versions >= 5; driven through the line API, decode::<TimingPoints>, decode::<Beatmap> and decode::<HitObjects>. The four lists must equal the legacy model bit for bit, be strictly increasing and clamped.",
             "Trusted: the ~200-line legacy model (field grammar, grouping, precedence, collection). Decision power comes from the model, not from fault injection (stated in DESIGN.md §2).", "§4 C12"),
     "C13": ("exploration", "seeded interleaving of logical clients' add operations on one shared collection, checked after every step against a reference sorted-list model and linear-scan lookups (weak fit)",
-            "Every add sequence up to length 3 (quick) / 4 (thorough) over {4 kinds x 4 times x 2 values}, plus seeded histories (<= 32 ops) built from 1-3 client scripts interleaved by the scheduler, with fractional / negative / repeated / near-equal / huge / infinite times, NaN and infinite values, out-of-range volumes; one history in ten has 40..140 operations; one in 150 is a bulk history of 60..700 (rarely ~4100..4300) adds with unique values (ascending, descending, shuffled, front inserts, re-adds at stored times); NaN-time adds as a hostile operation with a narrow oracle; values one ulp beside their pool value; the public ControlPoint trait used directly (redundancy query alone, insert-or-replace without it). After every add: lists equal the reference model and are strictly increasing; lookups at stored times, midpoints, before the first and beyond the last equal a linear scan with the documented fall-backs.",
+            "Every add sequence up to length 3 (quick) / 4 (thorough) over {4 kinds x 4 times x 2 values}, plus seeded histories (<= 32 ops) built from 1-3 client scripts interleaved by the scheduler, with fractional / negative / repeated / near-equal / huge / infinite times, NaN and infinite values, out-of-range volumes; one history in ten has 40..140 operations; one in 150 is a bulk history of 60..700 (rarely ~4100..4300) adds with unique values (ascending, descending, shuffled, front inserts, re-adds at stored times); NaN-time adds as a hostile operation with a narrow oracle; values one ulp beside their pool value; histories that start on a collection produced by the decoder; the same lookups before and after bursts of 2^8 / 2^16+-1 / 2^17 adds; lists filled beyond 2^16 points; the public ControlPoint trait used directly (redundancy query alone, insert-or-replace without it). After every add: lists equal the reference model and are strictly increasing; lookups at stored times, midpoints, before the first and beyond the last equal a linear scan with the documented fall-backs.",
             "Trusted: the reference collection model; 'active at its time' read narrowly. -0.0 and NaN times excluded.", "§4 C13"),
     "C18": ("exploration", "deterministic simulation of operation histories over shared long-lived buffers and caches (H1 abandoned borrow, H2 polluted/over-grown buffers); self-differential against fresh buffers",
             "Every sequence up to length 3 (quick) / 4 (thorough) of {owned, borrowed} computations over six fixed lists x two lengths, plus seeded histories (<= 24 ops) mixing owned / borrowed computations, SliderPath cache accessors, slider duration / end time with shared buffers, control-point and length mutations through the accessors and clear_curve, over pools including empty, single-point, degenerate identical-point, multi-segment and buffer-over-growing (> 100 point) lists, clone / clone_from between sliders, scripted fill-mutate-read triples, related lists (translated / mirrored / scaled copies), counter-wrap churn (one edit + up to 2^17 no-op mutable accesses between cache fill and read) thread hand-offs (operations on freshly spawned, joined threads), buffer clones and lookup histories (a warm owned curve answers idx_of_dist / position_at like a cold copy and like the borrowed view), whole Debug rendering of small curves equal to fresh; plus decoded maps where the decoder and the encoder are the clients of the shared buffers (cached curve == fresh, == same path recomputed after clear_curve), also after the map was edited through public fields (incl. its mode) and encoded with the caches kept. After every computing op the result must be bit-identical to Curve::new on fresh buffers for the current (mode, points, length).",
             "Self-differential: no geometric reference. Bit-exact comparison.", "§4 C18"),
     "C20": ("exploration", "deterministic simulation of iterator histories over one shared tick buffer (abandoned iterators, polluted buffer) checked against an eager reference event list and a fresh-buffer twin",
-            "A grid (span counts 1..6 x 11 tick-distance ratios x 6 velocities x 5 lengths x 2 start times) on a polluted buffer, plus seeded histories of 1..8 ops {pollute, abandon after j events, run} with real-valued playable parameters, also scaled by powers of two down to 2^-220 and with tick distances down to 5e-324 where no tick fits. Plus the encoder as caller (control-point times it writes lie at map control-point times or inside an object's lifetime; velocity, node-sample and repeat-count edits before encoding; osu-vs-catch caller differential on node times; API-built maps with a distinct volume per slider node: after encode+decode the sample point active at each node's closed-form time carries that node's volume, and HitObjectSlider::duration() equals its closed form). Each completed stream: the same through next / nth / skip / step_by / count / last with size_hint honoured, and through fold / for_each / collect / count / try_for_each / peekable after k calls of next(); structure exactly per the statement, first-tick existence decided exactly at the cut-off, closed-form times/progress within 1e-9 relative, chronological ticks, identical placement on every span, bit-identical to the stream from a fresh buffer, zero tick distance => no ticks but every repeat.",
+            "A grid (span counts 1..6 x 11 tick-distance ratios x 6 velocities x 5 lengths x 2 start times) on a polluted buffer, plus seeded histories of 1..8 ops {pollute, abandon after j events, run} with real-valued playable parameters, also scaled by powers of two down to 2^-220 and with tick distances down to 5e-324 where no tick fits. Plus the encoder as caller (control-point times it writes lie at map control-point times or inside an object's lifetime; velocity, node-sample and repeat-count edits before encoding; osu-vs-catch caller differential on node times; API-built maps with a distinct volume per slider node: after encode+decode the sample point active at each node's closed-form time carries that node's volume, and HitObjectSlider::duration() equals its closed form; a second encode after lengths were edited through the accessor; zero-length sliders; each node's volume still in force right before the next node). Each completed stream: the same through next / nth / skip / step_by / count / last with size_hint honoured, and through fold / for_each / collect / count / try_for_each / peekable after k calls of next(); structure exactly per the statement, first-tick existence decided exactly at the cut-off, closed-form times/progress within 1e-9 relative, chronological ticks, identical placement on every span, bit-identical to the stream from a fresh buffer, zero tick distance => no ticks but every repeat.",
             "Trusted: the eager reference (~100 lines) with a relative tolerance and tolerance-aware tick-count boundary. Parameters restricted to finite positive values and bounded tick counts.", "§4 C20"),
 }
 
